@@ -155,9 +155,15 @@ ChooseScalar(write, t) ==
 Perm(S, salt) == SetToSortSeq(S, LAMBDA a, b : ((a * 7919 + salt) % 1009) * 1000 + a < ((b * 7919 + salt) % 1009) * 1000 + b)
 DrawIdx(size, n, distinct, t) ==
     IF distinct THEN Perm(RandomSubset(n, 0..(size - 1)), Pick(0..1000)) ELSE [q \in 1..n |-> Pick(0..(size - 1))]
+\* tx: a lazy element-wise expression; mm: an expression that is evaluated into a temporary first (matrix product)
+TxRhs(n) == [k |-> "tx", vals |-> [q \in 1..n |-> Val(((q * 5 + Pick(0..6)) % 7) - 3)], m |-> Val(Pick({-2, 2, 3})), c |-> Val(Pick({-1, 1, 2}))]
+MmRhs(rows, cols) == [k |-> "mm", rows |-> rows, cols |-> cols, a |-> [q \in 1..(2 * rows) |-> Val(((q * 3 + Pick(0..4)) % 5) - 2)],
+                      b |-> [q \in 1..(2 * cols) |-> Val(((q * 7 + Pick(0..2)) % 3) - 1)]]
 IdxRhs(h, n, sameBuf, sel, t) ==
-    LET kind == IF sameBuf THEN "rv" ELSE PickSeq(<<"sc", "tn", "tn", "rv">>)
+    LET kind == IF sameBuf THEN "rv" ELSE PickSeq(<<"sc", "tn", "tn", "rv", "tx", "mm">>)
     IN CASE kind = "sc" -> [k |-> "sc", v |-> Val(Pick({-3, -2, 2, 3}))]
+         [] kind = "tx" -> TxRhs(n)
+         [] kind = "mm" -> IF Len(ShapeOf(h)) = 1 THEN MmRhs(n, 1) ELSE TxRhs(n)
          [] kind = "tn" -> [k |-> "tn", vals |-> [q \in 1..n |-> Val(((q * 5 + Pick(0..6)) % 7) - 3)]]
          [] kind = "rv" -> [k |-> "rv", buf |-> h, sel |-> [q \in 1..n |-> Pick(0..(Prod(ShapeOf(h)) - 1))]]
 \* forms:  flat (index tensor of flat offsets, any rank)  |  pair / it_int / int_it / it_fseq / fseq_it (rank 2)
@@ -193,11 +199,14 @@ ChooseMask(t) ==
         shp  == ShapeOf(h)
         size == Prod(shp)
         dens == Pick(1..4)
-        kind == PickSeq(<<"sc", "tn">>)
+        kind == PickSeq(<<"sc", "tn", "tx", "mm">>)
     IN [e |-> "MaskWrite", buf |-> h, shape |-> shp, mask |-> [p \in 1..size |-> IF Pick(1..4) <= dens THEN 1 ELSE 0],
-        aop |-> PickSeq(<<"set", "set", "add", "sub", "mul">>),
-        rhs |-> IF kind = "sc" THEN [k |-> "sc", v |-> Val(Pick({-3, -2, 2, 3}))]
-                ELSE [k |-> "tn", vals |-> [q \in 1..size |-> Val(((q * 3 + Pick(0..4)) % 5) - 2)]]]
+        aop |-> PickSeq(<<"set", "set", "add", "sub", "mul", "sub">>),
+        rhs |-> CASE kind = "sc" -> [k |-> "sc", v |-> Val(Pick({-3, -2, 2, 3}))]
+                  [] kind = "tx" -> TxRhs(size)
+                  [] kind = "mm" /\ Len(shp) = 1 -> MmRhs(size, 1)
+                  [] kind = "mm" /\ Len(shp) = 2 -> MmRhs(shp[1], shp[2])
+                  [] OTHER -> [k |-> "tn", vals |-> [q \in 1..size |-> Val(((q * 3 + Pick(0..4)) % 5) - 2)]]]
 
 \* ---- maps, reshape, flatten, squeeze, layout conversion, constructors (C20)
 Divs(n) == {d \in 1..n : n % d = 0}
